@@ -1248,6 +1248,9 @@ impl Engine for StorEngine {
     let n_ops = 1 + ctx::choose(max_ops);
     let keygen_seed = ((ctx::draw_u32() as u64) << 32) | ctx::draw_u32() as u64;
     let keygen = Rc::new(RefCell::new(KeyGen::new(keygen_seed)));
+    // a key store may hand out the same key material again (deterministic derivation): two methods with the same
+    // fragment and key then share a method digest, and insert_key_id fails GENUINELY with KeyIdAlreadyExists
+    keygen.borrow_mut().repeat_secrets = ctx::choose(3) == 0;
     ks::install_hooks(keygen.clone(), yn, yd);
     ks::set_hook_yields(false);
     let ctl = Rc::new(FaultCtl::default());
